@@ -232,6 +232,18 @@ func Handle[T any](method func(T, *gin.Context), opts ...HandlerOption) gin.Hand
 		opt(cfg)
 	}
 
+	// A nil handler means the default one
+	defaults := defaultHandlerConfig()
+	if cfg.PanicHandler == nil {
+		cfg.PanicHandler = defaults.PanicHandler
+	}
+	if cfg.ScopeErrorHandler == nil {
+		cfg.ScopeErrorHandler = defaults.ScopeErrorHandler
+	}
+	if cfg.ResolutionErrorHandler == nil {
+		cfg.ResolutionErrorHandler = defaults.ResolutionErrorHandler
+	}
+
 	return func(c *gin.Context) {
 		if cfg.PanicRecovery {
 			defer func() {
